@@ -192,7 +192,7 @@ def weakset_list(ex, v):
     x = z3.Select(ex.list_elems(out), j)
     cid = smt.CLASSES[et.cls]
     ex.assume(z3.ForAll([j], z3.Implies(z3.And(0 <= j, j < ex.list_len(out)),
-                                          z3.And(x != NONE, smt.issub(smt.tag(x), cid), z3.Select(ex.heap_arr('$alloc'), x))),
+                                          z3.And(x != NONE, smt.issub(smt.tag(x), cid), ex.is_alloc(x))),
                         patterns=[z3.Select(ex.list_elems(out), j)]))
     return out
 
@@ -304,7 +304,7 @@ def cm_timeout_exit(ex, v, sig):
                 ex.st.trace.append('deadline->TimeoutError')
                 ex.st.flags['cancelled'] = False   # it was the deadline's internal cancellation, not the caller's
                 new = ex.fresh_exc('TimeoutError', base='deadline', exact=True)
-                if 'last_exc' in ex.spec.ghosts:
+                if 'last_exc' in ex.C.ghost_modifies:
                     ex.ghost_set('last_exc', new)
                 return RaiseSig(new, 'asyncio.timeout')
     return sig
@@ -330,22 +330,22 @@ def sem_acquire(ex, n, awaited, recv):
 def sem_acquire_await(ex, recv):
     """A6: returns holding one permit; a cancelled acquire holds nothing."""
     ex.suspend('Semaphore.acquire')
-    val = ex.read_field(recv.term, 'sem$value')
+    val = ex.read_field(recv.term, 'sem_value')
     ex.assume(val.term > 0)
-    ex.write_field(recv.term, 'sem$value', mk_int(val.term - 1))
+    ex.write_field(recv.term, 'sem_value', mk_int(val.term - 1))
     return mk_bool(True)
 
 
 def sem_release(ex, n, awaited, recv):
-    val = ex.read_field(recv.term, 'sem$value')
-    ex.write_field(recv.term, 'sem$value', mk_int(val.term + 1))
+    val = ex.read_field(recv.term, 'sem_value')
+    ex.write_field(recv.term, 'sem_value', mk_int(val.term + 1))
     return mk_none()
 
 
 def sem_new(ex, n, awaited, recv=None):
     v = ex.fresh_obj('Semaphore')
     lim = coerce(ex.eval(n.args[0]), INT) if n.args else mk_int(1)
-    ex.write_field(v.term, 'sem$value', lim)
+    ex.write_field(v.term, 'sem_value', lim)
     return v
 
 
@@ -402,8 +402,7 @@ def install(spec: Spec):
     })
     spec.methods[('Semaphore', 'acquire')] = sem_acquire
     spec.methods[('Semaphore', 'release')] = sem_release
-    spec.fields.setdefault('$alloc', BOOL)
-    spec.fields.setdefault('sem$value', INT)
+    spec.fields.setdefault('sem_value', INT)
     g = spec.globals.setdefault('*', {})
     for name in ('len', 'max', 'min', 'isinstance', 'issubclass', 'hasattr', 'id', 'str', 'range', 'list', 'sum', 'all', 'any', 'type',
                  'getattr', 'callable', 'cast', 'old'):
@@ -418,9 +417,11 @@ def install(spec: Spec):
     g['asyncio.QueueEmpty'] = ('cls', 'QueueEmpty')
     g['asyncio.Future'] = ('cls', 'Future')
     g['asyncio.Event'] = ('cls', 'AsyncEvent')
+    from .symexec import MOD
+    g['MODULE'] = ('const', V(ANY, MOD))
     g['UTC'] = ('const', V(PY, py=('UTC',)))
     install_specfuns(spec)
-    spec.builtin_effects = {'acquire': ['sem$value'], 'release': ['sem$value']}
+    spec.builtin_effects = {'acquire': ['sem_value'], 'release': ['sem_value']}
 
 
 # ---------------------------------------------------------------------------------------------
@@ -468,5 +469,10 @@ def sf_exc_is(ex, e, c):
     return mk_bool(isinstance_term(ex, e, c))
 
 
+def sf_fresh_object(ex, x):
+    return mk_bool(z3.And(x.term != NONE, z3.Not(ex.is_alloc(x.term, ex.entry['now'])), ex.is_alloc(x.term)))
+
+
 def install_specfuns(spec: Spec):
+    spec.specfuns['fresh_object'] = sf_fresh_object
     spec.specfuns.update({'implies': sf_implies, 'iff': sf_iff, 'fmt2': sf_fmt('{}.{}'), 'ctx': sf_ctx, 'exc_is': sf_exc_is})
